@@ -13,7 +13,7 @@ from collections import Counter
 from . import common, progs, stream, findings, exportrun
 
 PROP = 'C03'
-MUTATORS = {'new', 'op', 'sub', 'apply', 'flatten', 'copy', 'gdur', 'gdur-leave', 'setreg', 'setrep'}
+MUTATORS = {'new', 'op', 'sub', 'adopt', 'apply', 'flatten', 'copy', 'gdur', 'gdur-leave', 'setreg', 'setrep'}
 OBS = ['list', 'list', 'dur', 'chans', 'reps', 'copyobs', 'stim', 'plot', 'plot', 'ops']
 
 
@@ -100,15 +100,52 @@ def forced_histories(rng, n):
     change C03-m3 — a memoised index table in the acquisition registry — was missed by the random stream):
       A  a measurement listed AFTER a repeated block that contains measurements; observe; unroll; (observe)
       B  a measurement deep in a chain; observe; add a measurement that is listed EARLIER (fresh qubit, depth 1); (observe)
-      C  like A, the block nested twice (counts multiply)."""
+      C  like A, the block nested twice (counts multiply).
+      D  (after the seeded change C03-m6 — a listing memoised per wrapper object) observe the parent; add through the nested
+         copy `add()` returned (`adopt`); (observe); the final listing of the parent must show the operation.
+      E  observe; apply_modifiers()/flatten() (returns a second wrapper around the same structure); add through the new
+         wrapper; the final listing is also taken through the EARLIER wrapper (progs.ImplRun.observe_list)."""
     out = []
     M = 'DispersiveMeasure'
+
+    def mk(c, cls, qubit, reg):
+        return ['op', c, cls, [qubit], 'A' if cls == M else 'M', None, rng.randrange(3) if cls == M else 0, reg if cls == M else 0, [], None]
     for i in range(n):
-        kind = 'ABC'[i % 3]
+        kind = 'ABCDE'[i % 5]
         q = rng.randrange(3)
         h = [['new', 'f1']]
         obs = rng.choice([['list', 0], ['list', 0], ['copyobs', 0], ['stim', 0]])
-        if kind in 'AC':
+        if kind == 'D':
+            h.append(['new', f'f{rng.randint(1, 2)}'])
+            nh = 0
+            for _ in range(rng.randint(0, 2)):
+                h.append(mk(1, rng.choice(['Rx180', 'Wait', 'Hadamard', M]), q, 1))
+                nh += 1
+            for _ in range(rng.randint(0, 1)):
+                h.append(mk(0, rng.choice(['Rx180', M]), rng.randrange(3), 0))
+                nh += 1
+            h.append(['sub', 0, 1])          # handle nh: the nested copy
+            h.append(list(obs))
+            h.append(['adopt', nh])          # circuit index 2: the nested copy, added to through the kept handle
+            for _ in range(rng.randint(1, 2)):
+                h.append(mk(2, rng.choice(['Rx180', 'Wait', M]), rng.randrange(3), 2))
+            if rng.random() < 0.5:
+                h.append(['list', 0])
+            if rng.random() < 0.3:
+                h.append(['op', 0, 'Rx180', [rng.randrange(3)], 'M', None, 0, 0, [], None])
+        elif kind == 'E':
+            cnt = rng.randint(1, 3)
+            h.append(['new', f'f{cnt}'])
+            h.append(mk(1, rng.choice(['Rx180', 'Wait', M]), q, 1))
+            h.append(['sub', 0, 1])
+            h.append(mk(0, rng.choice(['Rx180', M]), rng.randrange(3), 0))
+            h.append(list(obs))
+            h.append([rng.choice(['apply', 'flatten']), 0])
+            if rng.random() < 0.5:
+                h.append(['list', 0])
+            for _ in range(rng.randint(1, 2)):
+                h.append(mk(0, rng.choice(['Rx180', 'Wait', M]), rng.randrange(3), 0))
+        elif kind in 'AC':
             cnt = rng.randint(2, 3)
             h.append(['new', f'f{cnt}'])
             if rng.random() < 0.5:
